@@ -12,7 +12,10 @@ also depends on the anchor's `k` (through `A5.PG.needsReflect`).  This file
 * expresses the planar offset `centreQ ac / 2 − centreQ ap` (parent frame: child lattice units are half the parent's)
   by the table entry alone, with NO `BASIS_INVERSE·BASIS` defect (`centre_diff`);
 * proves **T-reach**: `dist²(centreQ ac / 2, centreQ ap) < 0.64 · area(parent pentagon)` for every depth, orientation,
-  position and child — with the sharp constant (see `reach_sharp`). -/
+  position and child `d < 4` of a pentagon parent (curve depth `≥ 1`) — with the sharp constant: the maximum of
+  `dist / √area` over the table is `0.64905…` (`reach_table`: `dist² < 0.4213·area`; `reach_table_sharp`: some quad of
+  every orientation class has `dist² > 0.4212·area`).  Depth 0 → 1, where the parent cell is the quintant TRIANGLE, is
+  `root_centre_reach` (maximum `0.6142…`). -/
 namespace A5.CP
 open A5 A5.HilbertLocate A5.PG
 
@@ -210,6 +213,11 @@ theorem children_family_mem (n o s : Nat) (hn : n + 2 ≤ 30) (hs : s < 4 ^ (n +
       omega
     rewrite [e]
     exact finalAnchor_quad _ (n + 1) j _ _
+
+/-- `child_quad_mem` on a concrete cell (orientation 3: reverse + flipIJ; parent 6 at depth 2, child 26 at depth 3) -/
+example : ∃ ap ac, sToAnchor 6 2 3 = .ok ap ∧ sToAnchor 26 3 3 = .ok ac ∧ anchorQuad ap ac ∈ finalQuads false true := by
+  obtain ⟨ap, ac, h1, h2, _, _, h5⟩ := child_quad_mem 1 3 6 2 (by decide) (by decide) (by decide)
+  exact ⟨ap, ac, h1, h2, h5⟩
 
 /-! ## the planar centre offset, from the table entry alone -/
 
